@@ -2734,6 +2734,138 @@ def run_wrapper_strata(ctx, reps, only=None):
 
 
 # ---------------------------------------------------------------------------
+# tmpw lines of the tree stream (round 5): OperatorRightScalarMult / OperatorComp / OperatorSum
+# constructed WITH a user temporary around random trees, vs `rscalTmpI` / `compTmpI` /
+# `sumTmpI` (in place) and `callO` (out of place) of the model, the content of the temporary
+# after the call included.
+
+TMPW_KINDS = ('rscal', 'comp', 'sum')
+TMPW_BRANCHES = ['tmpw/{}/{}'.format(k, m) for k in TMPW_KINDS for m in ('oop', 'ip')] + \
+    ['tmpw/rscal/nested-ctor']
+
+
+def eval_tmpw(ctx, case, lines, pend):
+    import odl
+    n = case['n']
+    data = data_from_json(case['data'], n)
+    space = data['space']
+    xv = np.array(case['x'], dtype=float)
+    yv = np.array(case['y'], dtype=float)
+    tv = np.array(case['tv'], dtype=float)
+    w, c = case['wrap'], case['c']
+    key = 'tmpw {}[{}]'.format(w, case['shape'][:120])
+    try:
+        A, rest = real_from_tokens(case['tokens'].split(','), data)
+        B, rest2 = real_from_tokens(case['tokens2'].split(','), data)
+        assert not rest and not rest2
+        tmp = space.element(tv.copy())
+        W = {'rscal': lambda: odl.OperatorRightScalarMult(A, c, tmp=tmp),
+             'comp': lambda: odl.OperatorComp(A, B, tmp=tmp),
+             'sum': lambda: odl.OperatorSum(A, B, tmp_ran=tmp)}[w]()
+    except Exception as e:  # noqa
+        ctx.disagree(case, 'cannot build: {}: {}'.format(type(e).__name__, str(e)[:100]),
+                     'model exists', stream='tmpw')
+        return
+    res, xa, ta = {}, {}, {}
+    x = space.element(xv.copy())
+    res['oop'] = safe_call(W, x)
+    xa['oop'], ta['oop'] = snapshot(x), snapshot(tmp)
+    tmp[:] = tv
+    x = space.element(xv.copy())
+    y = space.element(yv.copy())
+    res['ip'] = safe_call(W, x, out=y)
+    xa['ip'], ta['ip'] = snapshot(x), snapshot(tmp)
+    if res['oop'].status != 'ok':
+        ctx.violation(key + ' check=raises-on-valid-input', 'op(x) raises ' + res['oop'].status, case)
+    else:
+        if not bitsame(xa['oop'], xv):
+            ctx.violation(key + ' check=input-unchanged-oop', 'x modified by op(x)', case)
+        if shares(arrays_of(res['oop'].obj), arrays_of(tmp)):
+            ctx.violation(key + ' check=result-shares-operator-state',
+                          'the element returned by op(x) shares memory with the user temporary',
+                          case)
+        if res['ip'].status != 'ok':
+            ctx.violation(key + ' check=ip', 'ip call raises ' + res['ip'].status, case)
+        else:
+            if res['ip'].obj is not y:
+                ctx.violation(key + ' check=returns-out', 'ip call did not return out', case)
+            if not same(res['ip'].val, res['oop'].val):
+                ctx.violation(key + ' check=ip-equals-oop', 'ip result {} differs from op(x) = {}'.format(
+                    res['ip'].val[:6], res['oop'].val[:6]), case)
+            if not bitsame(xa['ip'], xv):
+                ctx.violation(key + ' check=input-unchanged-ip', 'x modified by op(x, out=y)', case)
+    if lines is None:
+        return
+    base = ('wrap={} c={} t2={} tv={} n={} t={} x={} y={} lam={} sigma={} gamma={} radius={} eps={} '
+            'g={} sig={} lo={} up={}').format(
+        w, bits(c), case['tokens2'], bl(tv), n, case['tokens'], bl(xv), bl(yv), bits(data['lam']),
+        bits(data['sigma']), bits(data['gamma']), bits(data['radius']), bits(EPS_CCL1),
+        bl(data['g']), bl(data['sig']), bl(data['lo']), bl(data['up']))
+    for mode in ('oop', 'ip'):
+        lines.append('tree mode={} {}'.format(mode, base))
+        pend.append((case, mode, res[mode], xa[mode], ta[mode]))
+
+
+def run_tmpw(ctx, count):
+    import odl
+    import random
+    lines, pend = [], []
+    plan = [random.Random(20260929)] * 45 + [ctx.rng] * count
+    for k, rng in enumerate(plan):
+        n = rng.choice([1, 2, 3, 4])
+        space = odl.rn(n)
+        data = dict(space=space, lam=rng.choice([1.0, 0.5, 2.0]), sigma=rng.choice([1.0, 0.5, 2.0]),
+                    gamma=rng.choice([0.5, 1.0]), radius=rng.choice([1.0, 2.0]),
+                    g=np.array([rng.randint(1, 16) / 8.0 for _ in range(n)]),
+                    sig=np.array([rng.choice([0.5, 1.0, 2.0]) for _ in range(n)]),
+                    lo=np.array([rng.choice([-1.0, -0.5, 0.0]) for _ in range(n)]),
+                    up=np.array([rng.choice([0.5, 1.0, 2.0]) for _ in range(n)]))
+        w = TMPW_KINDS[k % 3] if k < 45 else rng.choice(TMPW_KINDS)
+        ta, _m, sa = rand_tree(rng, rng.choice([0, 1, 2]), n, data)
+        tb, _m, sb = rand_tree(rng, rng.choice([0, 1, 2]), n, data)
+        if k in (0, 3, 6):
+            # the operand is itself an OperatorRightScalarMult: the constructor merges the two
+            # (model `rscalCtor`), visible in the content of the temporary
+            ta, sa = ['r:{}'.format(bits(rng.choice([2.0, -0.5])))] + ta, 'r({})'.format(sa)
+        pre = rng.choice(['garbage', 'nan', 'inf'])
+        fill = {'garbage': 4321.5, 'nan': float('nan'), 'inf': float('inf')}[pre]
+        case = {'kind': 'tmpw', 'wrap': w, 'c': rng.choice([2.0, -1.0, 0.5, -0.5]),
+                'tokens': ','.join(ta), 'tokens2': ','.join(tb),
+                'shape': (sa if w == 'rscal' else '{},{}'.format(sa, sb))[:200], 'n': n,
+                'data': data_to_json(data), 'x': [rng.randint(-16, 16) / 8.0 for _ in range(n)],
+                'y': [fill] * n, 'tv': [{'garbage': -8765.25, 'nan': float('nan'),
+                                         'inf': float('inf')}[rng.choice(['garbage', 'nan', 'inf'])]] * n}
+        eval_tmpw(ctx, case, lines, pend)
+    outs = core.run_driver('C03', lines)
+    for (desc, mode, r, xafter, tafter), ans in zip(pend, outs):
+        d = dict(desc, mode=mode)
+        ctx.case(('tmpw', desc['wrap'], desc['shape'], mode)
+                 if r.status == 'ok' and np.any(r.val != 0) else None)
+        ctx.hit('tmpw/{}/{}'.format(desc['wrap'], mode))
+        if desc['wrap'] == 'rscal' and desc['tokens'].startswith('r:'):
+            ctx.hit('tmpw/rscal/nested-ctor')
+        if r.status != 'ok':
+            if not ans.startswith(':'.join(r.status.split(':')[:2])):
+                ctx.disagree(d, r.status, ans[:100], stream='tmpw')
+            continue
+        if not ans.startswith('ok '):
+            ctx.disagree(d, 'ok', ans[:100], stream='tmpw')
+            continue
+        f = dict(t.split('=', 1) for t in ans.split()[1:])
+        if not same_exact(parse_bl(f['val']), r.val):
+            ctx.disagree(d, 'val={}'.format(r.val[:6]), 'val={}'.format(parse_bl(f['val'])[:6]),
+                         stream='tmpw')
+        elif not same_exact(parse_bl(f['x']), xafter):
+            ctx.disagree(d, 'x after={}'.format(xafter[:6]), 'x after={}'.format(parse_bl(f['x'])[:6]),
+                         stream='tmpw')
+        elif not same_exact(parse_bl(f['tmp']), tafter):
+            ctx.disagree(d, 'user temporary after the call={}'.format(tafter[:6]),
+                         'tmp={}'.format(parse_bl(f['tmp'])[:6]), stream='tmpw')
+        elif int(f['ret']) == 2:
+            ctx.disagree(d, 'returned object', 'model returns the temporary', stream='tmpw')
+
+
+# ---------------------------------------------------------------------------
 # history stream (round 5): RESULT OWNERSHIP over time for every wrapper class that accepts a
 # user temporary (`tmp=`, `tmp_ran=`, `tmp_dom=`), and the wrappers the library derives from
 # them with the same temporary, over inner operators whose out-of-place result is their
@@ -3065,7 +3197,8 @@ EXPECTED_BRANCHES = (
     ['ownership/result/' + c for c in MODELLED if c != 'InnerProductOperator'] +
     LEAF_BRANCHES + WRAP_BRANCHES +
     ['pso/{}/{}'.format(k, m) for k in ('psocoo', 'psoadj') for m in ('oop', 'ip')] +
-    ['pso-order/psocoo/ungrouped-ip', 'pso-order/psoadj/ungrouped-ip'] + HISTORY_BRANCHES)
+    ['pso-order/psocoo/ungrouped-ip', 'pso-order/psoadj/ungrouped-ip'] + HISTORY_BRANCHES +
+    TMPW_BRANCHES)
 
 
 def report_unhit(ctx):
@@ -3132,6 +3265,7 @@ def _run(ctx):
     run_leaves(ctx, 60 if ctx.quick else 1500)
     run_wrapper_strata(ctx, 1 if ctx.quick else 4)
     run_history(ctx, 1 if ctx.quick else 6)
+    run_tmpw(ctx, 30 if ctx.quick else 600)
     run_layouts(ctx)
     run_argforms(ctx)        # (not deep: the spellings differ in construction, not in inputs)
     run_zoo(ctx, deep=not ctx.quick)
@@ -3148,6 +3282,7 @@ def search(ctx, broken):
     run_leaves(ctx, 3000)
     run_wrapper_strata(ctx, 10)
     run_history(ctx, 20)
+    run_tmpw(ctx, 600)
 
 
 def replay(ctx, case):
@@ -3197,6 +3332,10 @@ def replay(ctx, case):
     if case.get('kind') == 'pso':
         sub = Ctx2()
         eval_pso(sub, case, None, None)
+        return sub.violations[0]['what'] if sub.violations else None
+    if case.get('kind') == 'tmpw':
+        sub = Ctx2()
+        eval_tmpw(sub, case, None, None)
         return sub.violations[0]['what'] if sub.violations else None
     if case.get('kind') == 'history':
         sub = Ctx2()
